@@ -9,6 +9,8 @@ import (
 	"strings"
 
 	"csverify/bounds"
+	"golang.org/x/tools/go/packages"
+
 	"csverify/core"
 	"csverify/sym"
 )
@@ -221,7 +223,7 @@ func checkC02(r *core.Result) {
 	r.RuleText = "one obligation per (rule, construct); Skip contract passes are run once per wire-type value 0..7"
 	r.Assumptions = []string{
 		"not decided: byte equality with protowire for all values; the key formula tag<<3|wt (a frozen fragment, pinned by existing tests)",
-		"Skip's 'complete field' clause uses the lemma that a key's encoding is never shorter than SizeOfTagKey(tag)",
+		"Skip's 'complete field' clause holds for keys written with the minimal number of bytes; rule S-keystart decides whether the code guarantees that (it does not: recorded known finding)",
 	}
 	r.Trusted = []string{"spec table (checks/c01.go)", "go/types", "lin entailment"}
 	prog, err := core.Load("./")
@@ -230,6 +232,7 @@ func checkC02(r *core.Result) {
 		return
 	}
 	root := prog.Pkg("")
+	skipKeyStart(r, prog, root)
 	// (a) sign extension rows
 	ea := &encAnalysis{pk: root, prog: prog, wires: map[string][]string{}}
 	for _, name := range []string{"EncodeInt32", "EncodePackedInt32", "EncodeInt64", "EncodeUInt32"} {
@@ -296,4 +299,70 @@ func checkC02(r *core.Result) {
 		evalRejects(r, prog, "C02", rows)
 	}
 	r.Floor("obligations", len(r.Obligations), 25)
+}
+
+// skipKeyStart (S-keystart): Skip locates the start of the field it returns by stepping back SizeOfTagKey(tag) bytes
+// from the cursor. That is the start of the key only if DecodeTag consumed exactly that many bytes, i.e. if the key
+// was written with the minimal number of bytes; a padded key (a0 86 00 for field 100) is well-formed wire format.
+// The clause holds if either DecodeTag rejects keys longer than their minimal encoding, or the decoder records where
+// the key began and Skip uses that.
+func skipKeyStart(r *core.Result, prog *core.Program, pk *packages.Package) {
+	info := pk.TypesInfo
+	sk := core.FindFunc(pk, "(*Decoder).Skip")
+	dt := core.FindFunc(pk, "(*Decoder).DecodeTag")
+	if sk == nil || dt == nil {
+		r.Fail("anchor", "(*Decoder).Skip / DecodeTag", "", "method not found")
+		return
+	}
+	usesMinimalSize := false
+	ast.Inspect(sk.Decl.Body, func(n ast.Node) bool {
+		if c, ok := n.(*ast.CallExpr); ok {
+			if fn := staticCallee(info, c); fn != nil && fn.Name() == "SizeOfTagKey" {
+				usesMinimalSize = true
+			}
+		}
+		return true
+	})
+	// does DecodeTag compare the number of bytes it consumed with the minimal size of what it decoded?
+	minimalEnforced := false
+	ast.Inspect(dt.Decl.Body, func(n ast.Node) bool {
+		b, ok := n.(*ast.BinaryExpr)
+		if !ok || (b.Op != token.NEQ && b.Op != token.GTR && b.Op != token.EQL) {
+			return true
+		}
+		for _, side := range []ast.Expr{b.X, b.Y} {
+			if c, ok := side.(*ast.CallExpr); ok {
+				if fn := staticCallee(info, c); fn != nil && (fn.Name() == "SizeOfVarint" || fn.Name() == "SizeOfTagKey") {
+					minimalEnforced = true
+				}
+			}
+		}
+		return true
+	})
+	// or: a Decoder field written in DecodeTag and read in Skip
+	recorded := false
+	written := map[string]bool{}
+	recvDT, recvSK := recvObj(info, dt.Decl), recvObj(info, sk.Decl)
+	ast.Inspect(dt.Decl.Body, func(n ast.Node) bool {
+		if as, ok := n.(*ast.AssignStmt); ok {
+			for _, l := range as.Lhs {
+				if se, ok := l.(*ast.SelectorExpr); ok {
+					if id, ok := se.X.(*ast.Ident); ok && info.Uses[id] == recvDT && se.Sel.Name != "offset" {
+						written[se.Sel.Name] = true
+					}
+				}
+			}
+		}
+		return true
+	})
+	ast.Inspect(sk.Decl.Body, func(n ast.Node) bool {
+		if se, ok := n.(*ast.SelectorExpr); ok {
+			if id, ok := se.X.(*ast.Ident); ok && info.Uses[id] == recvSK && written[se.Sel.Name] {
+				recorded = true
+			}
+		}
+		return true
+	})
+	r.Ob("S-keystart", "(*Decoder).Skip returns the field from the first byte of its key", prog.Pos(sk.Pos()), !usesMinimalSize || minimalEnforced || recorded,
+		"Skip steps back SizeOfTagKey(tag) bytes to find the key, but DecodeTag accepts keys written with more bytes than necessary and does not record where the key began: for such a key the returned field lacks its first key byte(s); in fast mode (no re-validation) the truncated bytes are kept as an unknown field and re-emitted")
 }
